@@ -173,27 +173,59 @@ func (s *Server) DidOpen(ctx context.Context, params *protocol.DidOpenTextDocume
 	return nil
 }
 
+// ContentChange is one content change of a textDocument/didChange notification as sent
+// on the wire: Range is nil when the client sent none (the text replaces the whole document).
+type ContentChange struct {
+	Range *protocol.Range `json:"range,omitempty"`
+	Text  string          `json:"text"`
+}
+
+// DidChangeRawParams mirrors protocol.DidChangeTextDocumentParams but keeps the range of
+// each change optional. protocol.TextDocumentContentChangeEvent holds Range by value, so
+// after decoding an insertion at 0:0 cannot be told from a range-less full replacement.
+type DidChangeRawParams struct {
+	TextDocument   protocol.VersionedTextDocumentIdentifier `json:"textDocument"`
+	ContentChanges []ContentChange                          `json:"contentChanges"`
+}
+
 func (s *Server) DidChange(ctx context.Context, params *protocol.DidChangeTextDocumentParams) error {
-	if doc, ok := s.documents.Load(params.TextDocument.URI); ok {
+	changes := make([]ContentChange, len(params.ContentChanges))
+	for i, change := range params.ContentChanges {
+		changes[i].Text = change.Text
+		if !isFullChange(change.Range) {
+			r := change.Range
+			changes[i].Range = &r
+		}
+	}
+	return s.didChange(ctx, params.TextDocument.URI, changes)
+}
+
+// DidChangeRaw applies a didChange notification decoded with optional ranges.
+func (s *Server) DidChangeRaw(ctx context.Context, params *DidChangeRawParams) error {
+	return s.didChange(ctx, params.TextDocument.URI, params.ContentChanges)
+}
+
+func (s *Server) didChange(ctx context.Context, docURI protocol.DocumentURI, changes []ContentChange) error {
+	if doc, ok := s.documents.Load(docURI); ok {
 		content, ok := doc.(string)
 		if !ok {
 			return nil
 		}
-		for _, change := range params.ContentChanges {
-			if isFullChange(change.Range) {
+		for _, change := range changes {
+			if change.Range == nil {
 				content = change.Text
 			} else {
-				content = applyChange(content, change.Range, change.Text)
+				content = applyChange(content, *change.Range, change.Text)
 			}
 		}
-		s.documents.Store(params.TextDocument.URI, content)
+		s.documents.Store(docURI, content)
 		if s.workspace != nil {
-			if path := uriToPath(params.TextDocument.URI); path != "" {
+			if path := uriToPath(docURI); path != "" {
 				s.workspace.UpdateFile(path, content)
 				s.loader.InvalidateFile(path)
 			}
 		}
-		go s.publishDiagnostics(ctx, params.TextDocument.URI, content)
+		go s.publishDiagnostics(ctx, docURI, content)
 	}
 	return nil
 }
